@@ -1,8 +1,8 @@
 (* Optional cross-check for C14 (built when the C05 development compiles): the Gallina model of the optimizer
-   (PV.Opt.Pipeline.optimize, with the two repairs of /repo applied) maps the INDEPENDENTLY translated
+   (PV.Opt.Pipeline.optimize, overflow checks on, grammar-extras off, with the two repairs of /repo applied) maps the INDEPENDENTLY translated
    meta/src/grammar.pest (tools/pest2v.py -> gen/MetaGrammar.v) to exactly the optimized rules the REAL
    optimizer printed on this run (gen/MetaOpt.v).                                               *)
 From Coq Require Import List NArith ZArith String.
 Require Import PV.Peg.Ast PV.Opt.Pipeline PV.gen.MetaGrammar PV.gen.MetaOpt.
-Example meta_opt_is_optimize : optimize false true true meta_grammar = Some meta_opt.
+Example meta_opt_is_optimize : optimize true false true true meta_grammar = Some meta_opt.
 Proof. vm_compute. reflexivity. Qed.
